@@ -53,6 +53,21 @@ Section Loop.
   Qed.
 End Loop.
 
+Lemma with_pos_noo {A} L (rd : bytes -> result (A * bytes)) bs : noo (rd bs) -> noo (with_pos L rd bs).
+Proof. unfold with_pos, noo. destruct (rd bs) as [[x r]|e]; cbn [bind]; [discriminate | congruence]. Qed.
+Lemma with_pos_progress {A} L (rd : bytes -> result (A * bytes)) bs x r :
+  (forall y r', rd bs = Ok (y, r') -> (length r' < length bs)%nat) -> with_pos L rd bs = Ok (x, r) -> (length r < length bs)%nat.
+Proof. unfold with_pos. destruct (rd bs) as [[y r']|e]; cbn [bind]; [|discriminate]. intros P H. injection H as _ <-. exact (P y r' eq_refl). Qed.
+(* a loop over records with their positions ends *)
+Lemma loop_ok {A} L (rd : bytes -> result (A * bytes)) (bound : nat) :
+  (forall b, (length b < bound)%nat -> noo (rd b)) -> (forall b x r, rd b = Ok (x, r) -> (length r < length b)%nat) ->
+  forall fuel count bs, (length bs < fuel)%nat -> (length bs < bound)%nat -> noo (read_n (with_pos L rd) fuel count bs []).
+Proof.
+  intros N P fuel count bs Hf Hb. apply (read_n_ends _ (with_pos L rd) bound); try assumption.
+  - intros b Hb'. apply with_pos_noo. apply N. exact Hb'.
+  - intros b x r. apply with_pos_progress. intros y r'. apply P.
+Qed.
+
 Lemma fixed_noo k bs : noo (rd_fixed k bs).  Proof. apply take_n_noo. Qed.
 Lemma fixed_progress k : (0 < k)%nat -> forall bs x r, rd_fixed k bs = Ok (x, r) -> (length r < length bs)%nat.
 Proof. intros K bs x r H. apply take_n_spec in H. lia. Qed.
@@ -146,12 +161,13 @@ Qed.
 Lemma code_noo L fuel bs : (length bs < fuel)%nat -> noo (rd_code L fuel bs).
 Proof.
   intros Hf. unfold rd_code. set (bs0 := skipn _ bs). assert (B0 : (length bs0 <= length bs)%nat) by (unfold bs0; rewrite skipn_length; lia).
+  set (at0 := Z.of_nat L - Z.of_nat (length bs0)).
   destruct (take_n 16 bs0) as [[h r]|e] eqn:T; cbn [bind]; [|intros H; injection H as ->; exact (take_n_noo _ _ T)]. pose proof (take_n_spec _ _ _ _ T).
   set (tries := le (firstn 2 (skipn 6 h))). set (insns := le (skipn 12 h)). set (r1 := skipn _ r).
   assert (B1 : (length r1 <= length r)%nat) by (unfold r1; rewrite skipn_length; lia).
   assert (Q : forall r2, (length r2 <= length r1)%nat -> noo (if 0 <? tries
-        then do '(ts, r3) <- read_n (rd_fixed 8) fuel tries r2 []; do '(hs, r4) <- read_u r3; do '(hl, r5) <- read_n (rd_handler fuel) fuel hs r4 []; Ok ((Z.of_nat (length ts), Z.of_nat (length hl)), r5)
-        else Ok ((0, 0), r2))).
+        then do '(ts, r3) <- read_n (rd_fixed 8) fuel tries r2 []; do '(hs, r4) <- read_u r3; do '(hl, r5) <- read_n (rd_handler fuel) fuel hs r4 []; Ok ((at0, (Z.of_nat (length ts), Z.of_nat (length hl))), r5)
+        else Ok ((at0, (0, 0)), r2))).
   { intros r2 B2. destruct (0 <? tries); [|discriminate]. assert (P8 := fixed_progress 8 ltac:(lia)).
     destruct (read_n (rd_fixed 8) fuel tries r2 []) as [[ts r3]|e] eqn:R1; cbn [bind].
     2:{ intros H'; injection H' as ->. revert R1. apply (read_n_ends _ (rd_fixed 8) (S (length r2))); try lia; [intros; apply fixed_noo | exact P8]. }
@@ -166,12 +182,13 @@ Qed.
 Lemma code_progress L fuel bs x r : rd_code L fuel bs = Ok (x, r) -> (length r < length bs)%nat.
 Proof.
   unfold rd_code. set (bs0 := skipn _ bs). assert (B0 : (length bs0 <= length bs)%nat) by (unfold bs0; rewrite skipn_length; lia).
+  set (at0 := Z.of_nat L - Z.of_nat (length bs0)).
   destruct (take_n 16 bs0) as [[h r0]|e] eqn:T; cbn [bind]; [|discriminate]. pose proof (take_n_spec _ _ _ _ T).
   set (tries := le (firstn 2 (skipn 6 h))). set (insns := le (skipn 12 h)). set (r1 := skipn _ r0).
   assert (B1 : (length r1 <= length r0)%nat) by (unfold r1; rewrite skipn_length; lia).
   assert (Q : forall r2, (length r2 <= length r1)%nat -> (if 0 <? tries
-        then do '(ts, r3) <- read_n (rd_fixed 8) fuel tries r2 []; do '(hs, r4) <- read_u r3; do '(hl, r5) <- read_n (rd_handler fuel) fuel hs r4 []; Ok ((Z.of_nat (length ts), Z.of_nat (length hl)), r5)
-        else Ok ((0, 0), r2)) = Ok (x, r) -> (length r <= length r2)%nat).
+        then do '(ts, r3) <- read_n (rd_fixed 8) fuel tries r2 []; do '(hs, r4) <- read_u r3; do '(hl, r5) <- read_n (rd_handler fuel) fuel hs r4 []; Ok ((at0, (Z.of_nat (length ts), Z.of_nat (length hl))), r5)
+        else Ok ((at0, (0, 0)), r2)) = Ok (x, r) -> (length r <= length r2)%nat).
   { intros r2 B2. destruct (0 <? tries); [|intros H'; injection H' as _ <-; lia]. assert (P8 := fixed_progress 8 ltac:(lia)).
     destruct (read_n (rd_fixed 8) fuel tries r2 []) as [[ts r3]|e] eqn:R1; cbn [bind]; [|discriminate]. pose proof (read_n_rest _ _ P8 _ _ _ _ _ _ R1).
     destruct (read_u r3) as [[hs r4]|e] eqn:U; cbn [bind]; [|discriminate]. pose proof (read_u_progress _ _ _ U).
@@ -284,34 +301,23 @@ Qed.
 Theorem section_ends : forall buf ty count off, noo (section (S (length buf)) buf ty count off).
 Proof.
   intros buf ty count off. unfold section. pose proof (seek_length buf (start_of ty off)) as SL. set (bs := seek buf (start_of ty off)) in *.
+  set (F := S (length buf)).
+  assert (W : forall A (rd : bytes -> result (A * bytes)), (forall b, (length b < F)%nat -> noo (rd b)) -> (forall b x r, rd b = Ok (x, r) -> (length r < length b)%nat) ->
+              noo (do '(xs, _) <- read_n (with_pos (length buf) rd) F count bs []; Ok (map fst xs))).
+  { intros A rd N P. destruct (read_n (with_pos (length buf) rd) F count bs []) as [[xs r]|e] eqn:R; cbn [bind]; [discriminate|]. intros H. injection H as ->.
+    revert R. apply (loop_ok (length buf) rd F N P); unfold F; lia. }
   destruct (kind_of ty) as [[k|k p| | | | | | | | |]|] eqn:K; try discriminate.
-  - destruct (read_n (rd_fixed k) (S (length buf)) count bs []) as [[xs r]|e] eqn:R; cbn [bind]; [discriminate|]. intros H. injection H as ->.
-    revert R. apply (read_n_ends _ (rd_fixed k) (S (length buf))); try lia; [intros; apply fixed_noo | apply fixed_progress; exact (kind_fixed_pos _ _ K)].
-  - pose proof (kind_sized_pos _ _ _ K) as KP.
-    destruct (read_n (rd_sized k p (S (length buf))) (S (length buf)) count bs []) as [[xs r]|e] eqn:R; cbn [bind]; [discriminate|]. intros H. injection H as ->.
-    revert R. apply (read_n_ends _ (rd_sized k p (S (length buf))) (S (length buf))); try lia.
-    + intros b Hb. apply sized_noo; [exact KP | lia].
-    + intros b x r. apply sized_progress. exact KP.
-  - destruct (read_n (rd_anndir (S (length buf))) (S (length buf)) count bs []) as [[xs r]|e] eqn:R; cbn [bind]; [discriminate|]. intros H. injection H as ->.
-    revert R. apply (read_n_ends _ (rd_anndir (S (length buf))) (S (length buf))); try lia.
-    + intros b Hb. apply anndir_noo. lia.
-    + intros b x r. apply anndir_progress.
-  - destruct (read_n rd_strdata (S (length buf)) count bs []) as [[xs r]|e] eqn:R; cbn [bind]; [discriminate|]. intros H. injection H as ->.
-    revert R. apply (read_n_ends _ rd_strdata (S (length buf))); try lia; [intros; apply strdata_noo | apply strdata_progress].
-  - destruct (read_n (rd_code (length buf) (S (length buf))) (S (length buf)) count bs []) as [[xs r]|e] eqn:R; cbn [bind]; [discriminate|]. intros H. injection H as ->.
-    revert R. apply (read_n_ends _ (rd_code (length buf) (S (length buf))) (S (length buf))); try lia.
-    + intros b Hb. apply code_noo. lia.
+  - apply W; [intros; apply fixed_noo | apply fixed_progress; exact (kind_fixed_pos _ _ K)].
+  - pose proof (kind_sized_pos _ _ _ K) as KP. apply W; [intros b Hb; apply sized_noo; [exact KP | exact Hb] | intros b x r; apply sized_progress; exact KP].
+  - apply W; [intros b Hb; apply anndir_noo; exact Hb | intros b x r; apply anndir_progress].
+  - apply W; [intros; apply strdata_noo | apply strdata_progress].
+  - destruct (read_n (rd_code (length buf) F) F count bs []) as [[xs r]|e] eqn:R; cbn [bind]; [discriminate|]. intros H. injection H as ->.
+    revert R. apply (read_n_ends _ (rd_code (length buf) F) F); unfold F; try lia.
+    + intros b Hb. apply code_noo. exact Hb.
     + intros b x r. apply code_progress.
-  - destruct (read_n (rd_encarray (S (length buf))) (S (length buf)) count bs []) as [[xs r]|e] eqn:R; cbn [bind]; [discriminate|]. intros H. injection H as ->.
-    revert R. apply (read_n_ends _ (rd_encarray (S (length buf))) (S (length buf))); try lia.
-    + intros b Hb. apply encarray_facts. lia.
-    + intros b x r. apply encarray_progress.
-  - destruct (read_n (rd_annotation (S (length buf))) (S (length buf)) count bs []) as [[xs r]|e] eqn:R; cbn [bind]; [discriminate|]. intros H. injection H as ->.
-    revert R. apply (read_n_ends _ (rd_annotation (S (length buf))) (S (length buf))); try lia.
-    + intros b Hb. apply annotation_facts. lia.
-    + intros b x r. apply annotation_progress.
-  - destruct (read_n rd_classdata (S (length buf)) count bs []) as [[xs r]|e] eqn:R; cbn [bind]; [discriminate|]. intros H. injection H as ->.
-    revert R. apply (read_n_ends _ rd_classdata (S (length buf))); try lia; [intros b _; exact (proj1 (classdata_facts b)) | intros b x r; exact (proj2 (classdata_facts b) x r)].
+  - apply W; [intros b Hb; apply encarray_facts; exact Hb | intros b x r; apply encarray_progress].
+  - apply W; [intros b Hb; apply annotation_facts; exact Hb | intros b x r; apply annotation_progress].
+  - apply W; [intros b _; exact (proj1 (classdata_facts b)) | intros b x r; exact (proj2 (classdata_facts b) x r)].
 Qed.
 
 Lemma sections_end buf : forall items, noo (sections (S (length buf)) buf items).
@@ -366,7 +372,7 @@ Definition ex_buf : bytes :=
   [3;0;0;0; 1;0; 2;0; 3;0; 0;0; 9;9;9;9] ++
   [3;0;0;0; 1;16;0;0; 1;0;0;0; 0;0;0;0;  1;0;0;0; 2;0;0;0; 0;0;0;0;  0;16;0;0; 1;0;0;0; 16;0;0;0].
 Example map_example : map_list (S (length ex_buf)) ex_buf 16 =
-  Ok [({| m_type := 4097; m_count := 1; m_off := 0 |}, 1); ({| m_type := 1; m_count := 2; m_off := 0 |}, 2); ({| m_type := 4096; m_count := 1; m_off := 16 |}, 0)].
+  Ok [({| m_type := 4097; m_count := 1; m_off := 0 |}, [0]); ({| m_type := 1; m_count := 2; m_off := 0 |}, [0; 4]); ({| m_type := 4096; m_count := 1; m_off := 16 |}, [])].
 Proof. vm_compute. reflexivity. Qed.
 Example map_example_huge : map_list 60 (firstn 36 ex_buf ++ [255;255;255;255] ++ skipn 40 ex_buf) 16 = Err StructError.
 Proof. vm_compute. reflexivity. Qed.
